@@ -149,7 +149,7 @@ class SymDT(Sym):
         if self._f is None:
             e = self._e
             eng = E()
-            lo, hi = 0, (dfc(9999, 12, 31) + 1) * DAY_US - 1
+            lo, hi = 0, (dfc(9999, 12, 31) + 1) * DAY_US - 1      # datetime.min .. datetime.max
             if not eng.branch(z3.And(e >= lo, e <= hi)):
                 raise OverflowError("date value out of range")
             self._f = _fresh_fields("dt", e)
@@ -224,6 +224,19 @@ def m_copysign(x, y):
     return SymInt(z3.simplify(z3.If(ya >= 0, ax, -ax)))      # copysign(x, 0) == +|x| for integer zero
 
 
+def m_combine(date, time, tzinfo=True):
+    if not isinstance(time, SymTime) and not isinstance(date, SymDate):
+        return datetime.datetime.combine(date, time) if tzinfo is True else datetime.datetime.combine(date, time, tzinfo)
+    if isinstance(date, SymDate):
+        y, mo, d = date.y, date.mo, date.d
+    else:
+        y, mo, d = (z3.IntVal(date.year), z3.IntVal(date.month), z3.IntVal(date.day))
+    H, M, S, us = time_fields(time)
+    tz = time_tz(time) if tzinfo is True else tzinfo
+    return SymDT(fields=(y, mo, d, H, M, S, us), tz=tz)
+
+
+rt.MODELS[datetime.datetime.combine] = m_combine
 rt.MODELS.update({datetime.datetime: mk_datetime, datetime.time: mk_time, datetime.timedelta: mk_timedelta,
                   math.copysign: m_copysign})
 
@@ -330,6 +343,9 @@ def _compare(op, a, b):
             raise TypeError("can't compare offset-naive and offset-aware datetimes")
         if x is None:
             x, y = dt_epoch(a), dt_epoch(b)
+    elif isinstance(a, (SymDate, datetime.date)) and isinstance(b, (SymDate, datetime.date)) and not isinstance(a, datetime.datetime) and not isinstance(b, datetime.datetime):
+        x = a.ordinal() if isinstance(a, SymDate) else z3.IntVal(a.toordinal() - 1)
+        y = b.ordinal() if isinstance(b, SymDate) else z3.IntVal(b.toordinal() - 1)
     elif isinstance(a, (SymTime, datetime.time)) and isinstance(b, (SymTime, datetime.time)):
         if op not in ('==', '!='):
             raise Unsupported("time ordering")
@@ -450,8 +466,19 @@ def _dt_timetz(v):
     return SymTime(f[3:], tz=v.tz)
 
 
+class SymDate(Sym):
+    pytype = datetime.date
+
+    def __init__(self, y, mo, d):
+        self.y, self.mo, self.d = y, mo, d
+
+    def ordinal(self):
+        return dfc(self.y, self.mo, self.d)
+
+
 def _dt_date(v):
-    raise Unsupported("datetime.date()")
+    f = v.fields()
+    return SymDate(f[0], f[1], f[2])
 
 
 def _astimezone(v, tz=None):
@@ -491,11 +518,21 @@ def _attr(o, name):
         if name == '__class__':
             return datetime.time
         raise AttributeError(name) if name.startswith('_') else Unsupported(f"time.{name}")
+    if isinstance(o, SymDate):
+        if name in ('year', 'month', 'day'):
+            return SymInt({'year': o.y, 'month': o.mo, 'day': o.d}[name])
+        if name == '__class__':
+            return datetime.date
+        raise Unsupported(f"date.{name}")
     if isinstance(o, SymTD):
         if name == 'total_seconds':
             raise Unsupported("timedelta.total_seconds (float)")
         if name == 'days':
             return SymInt(o.us / DAY_US)
+        if name == 'seconds':
+            return SymInt((o.us % DAY_US) / US)
+        if name == 'microseconds':
+            return SymInt(o.us % US)
         if name == '__class__':
             return datetime.timedelta
         raise Unsupported(f"timedelta.{name}")
@@ -531,6 +568,8 @@ def _conc(v, model):
             y, mo, d, H, M, S, us = [ev(t) for t in v._f]
             return datetime.datetime(y, mo, d, H, M, S, us, tzinfo=tz)
         return (_EPOCH0 + datetime.timedelta(microseconds=ev(v._e))).replace(tzinfo=tz)
+    if isinstance(v, SymDate):
+        return datetime.date(ev(v.y), ev(v.mo), ev(v.d))
     if isinstance(v, SymTime):
         tz = _conc(v.tz, model) if isinstance(v.tz, Sym) else v.tz
         H, M, S, us = [ev(t) for t in v._f]
